@@ -362,8 +362,8 @@ func report(prop, tier string, seed int, jobs []*Job, rep *replayer, P *Program,
 				bad = "native run left the executor's path"
 			case rr.Panic != "" || !rr.Ended:
 				bad = "native run panicked/did not finish: " + rr.Panic
-			case len(rr.Asserts) > 0:
-				bad = "native assertion failed: " + strings.Join(rr.Asserts, ",")
+			case !sameSet(rr.Asserts, w.ExpectFail):
+				bad = fmt.Sprintf("assertion outcomes differ: native failed %v, executor expects %v", rr.Asserts, w.ExpectFail)
 			case strings.Join(rr.Obs, "|") != strings.Join(w.Obs, "|"):
 				bad = fmt.Sprintf("observed values differ: native %v executor %v", rr.Obs, w.Obs)
 			}
@@ -608,4 +608,20 @@ func (r *replayer) stubOverlay(ov map[string]string) error {
 		ov[file] = tmp
 	}
 	return nil
+}
+
+func sameSet(a, b []string) bool {
+	m := map[string]int{}
+	for _, x := range a {
+		m[x] |= 1
+	}
+	for _, x := range b {
+		m[x] |= 2
+	}
+	for _, v := range m {
+		if v != 3 {
+			return false
+		}
+	}
+	return true
 }
